@@ -2,7 +2,10 @@
 
 package c05
 
-import "github.com/scrapli/scrapligo/driver/netconf"
+import (
+	"github.com/scrapli/scrapligo/channel"
+	"github.com/scrapli/scrapligo/driver/netconf"
+)
 
 const netconfHookAvailable = true
 
@@ -14,4 +17,14 @@ func setNetconfHook(f func(string)) {
 	}
 
 	netconf.VerifYieldFunc.Store(&f)
+}
+
+func setChannelHook(f func(string)) {
+	if f == nil {
+		channel.VerifYieldFunc.Store(nil)
+
+		return
+	}
+
+	channel.VerifYieldFunc.Store(&f)
 }
